@@ -1,11 +1,11 @@
 #!/bin/bash
-# usage: tools/verify_seed.sh <property-id> <k>     (reads /tmp/out-<id>/{patch<k>.diff,demo<k>_test.go,meta<k>.json})
+# usage: tools/verify_seed.sh <property-id> <k> [outdir] [destk]    (reads <outdir>/{patch<k>.diff,demo<k>_test.go,meta<k>.json}; default outdir /tmp/out-<id>; stored as seeded/<id>-<destk>)
 # Confirms in a scratch worktree of /repo HEAD: the suite passes with the change, the demo fails with it and passes without it;
 # then stores the seed under /verif/seeded/<id>-<k>/.
 set -u
-id="$1"; k="$2"; out="/tmp/out-$id"
+id="$1"; k="$2"; out="${3:-/tmp/out-$id}"; destk="${4:-$k}"
 export GOFLAGS=-mod=mod GOPROXY=off GOSUMDB=off GOTOOLCHAIN=local
-wt="/tmp/vs-$id-$k"
+mkdir -p /root/scratch; wt="/root/scratch/vs-$id-$k"
 git -C /repo worktree remove --force "$wt" 2>/dev/null
 git -C /repo worktree add -q --detach "$wt" HEAD || exit 9
 cleanup() { git -C /repo worktree remove --force "$wt" 2>/dev/null; }
@@ -22,7 +22,7 @@ rm "$wt/$dir/zz_seed_demo${k}_test.go"
 ( cd "$wt" && go test -vet=off -count=1 ./... ) > "$wt/.suite.log" 2>&1; suite=$?
 echo "$id-$k: demo_clean_exit=$clean demo_mutant_exit=$mut suite_with_mutant_exit=$suite"
 if [ $clean -eq 0 ] && [ $mut -ne 0 ] && [ $suite -eq 0 ]; then
-  d="/verif/seeded/$id-$k"; mkdir -p "$d"
+  d="/verif/seeded/$id-$destk"; mkdir -p "$d"
   cp "$out/patch$k.diff" "$d/patch.diff"; cp "$out/demo${k}_test.go" "$d/demo_test.go"
   python3 - "$out/meta$k.json" "$d/meta.json" <<PY
 import json,sys
